@@ -306,6 +306,14 @@ def splitCmd : Cmd → List Cmd
   | .del ks => if ks.length > 1 then ks.map (fun k => .del [k]) else [.del ks]
   | c => [c]
 
+/-- `ReplicatedShardedState::execute` AFTER the repair prepared on fixes-glue-s3 ("the replicated
+    front end executes MSET / MGET / multi-key EXISTS key by key"): an MSET is one `SET` per pair —
+    each pair goes to its own shard and ships its own delta.  (MGET / EXISTS are reads: one
+    executor per node in this model, nothing to split.)  The current tree is `splitCmd`. -/
+def splitCmdFixed : Cmd → List Cmd
+  | .mset kvs => kvs.map (fun p => .set p.1 p.2 .always .none false)
+  | c => splitCmd c
+
 namespace GCluster
 
 def init (n : Nat) (causal : Bool) : GCluster :=
@@ -337,6 +345,13 @@ def step (g : GCluster) : GEv → GCluster
     | _, _ => g
 
 def run (g : GCluster) (evs : List GEv) : GCluster := evs.foldl step g
+
+/-- the step of the repaired front end (`splitCmdFixed`) -/
+def stepFixed (g : GCluster) : GEv → GCluster
+  | .client i c => (splitCmdFixed c).foldl (fun g c' => g.clientOne i c') g
+  | e => g.step e
+
+def runFixed (g : GCluster) (evs : List GEv) : GCluster := evs.foldl stepFixed g
 
 /-- the replication-state layer of the cluster (the object of layer 1) -/
 def proj (g : GCluster) : Cluster := { nodes := g.nodes.map (·.rs), sent := g.sent, log := g.log }
